@@ -643,3 +643,21 @@ pub fn decode_ade(text: &str) -> Result<Vec<AdeFileD>, String> {
     }
     Ok(out)
 }
+
+// ---------------------------------------------------------------------------------------------
+// html source page: one `role="row"` per source line; the second cell's aria-label is
+// "no coverage" (not instrumented), "0", or the execution count
+
+/// per listed source line: (line number, None = not instrumented | Some(count))
+pub fn decode_file_rows(text: &str) -> Result<Vec<(u64, Option<u64>)>, String> {
+    let mut rows = vec![];
+    for row in text.split("role=\"row\">").skip(1) {
+        let id = sections(row, "id=\"", "\"");
+        let no = num(id.first().ok_or("row without id")?)?;
+        let label = sections(row, "aria-label=\"", "\"");
+        let label = label.first().ok_or("row without aria-label")?;
+        let count = if *label == "no coverage" { None } else { Some(num(label)?) };
+        rows.push((no, count));
+    }
+    Ok(rows)
+}
